@@ -298,7 +298,8 @@ func (e *SendSideBWE) onDelayUpdate(delayStats DelayStats) {
 
 	lossStats := e.lossController.getEstimate(delayStats.TargetBitrate)
 	bitrateChanged := false
-	bitrate := min(delayStats.TargetBitrate, lossStats.TargetBitrate)
+	// the loss controller has its own fixed limits; keep the result within the configured ones
+	bitrate := clampInt(min(delayStats.TargetBitrate, lossStats.TargetBitrate), e.minBitrate, e.maxBitrate)
 	if bitrate != e.latestBitrate {
 		bitrateChanged = true
 		e.latestBitrate = bitrate
